@@ -111,10 +111,10 @@ func observe(height int64, dump []harness.KV) (*obs, error) {
 	for _, kv := range dump {
 		k := string(kv.K)
 		switch {
-		case strings.HasPrefix(k, "prop") && strings.Contains(k, string(QPropID)):
-			// the second proposal of the scripted histories is not judged: only where its record lives is noted
+		case strings.HasPrefix(k, "prop") && (strings.Contains(k, string(QPropID)) || strings.Contains(k, string(TPropID))):
+			// the second proposal of the scripted / twin histories is not judged: only where its record lives is noted
 			for _, st := range propStores {
-				if k == st+string(QPropID) {
+				if k == st+string(QPropID) || k == st+string(TPropID) {
 					o.QStore = st
 				}
 			}
